@@ -98,13 +98,19 @@ pub fn all() -> Vec<Witness> {
             plan: plan(vec![Min(0)], None, None, 9, 1),
             flows: vec![vec![vec![vec![s("abc")]]], vec![vec![vec![Null]]]],
         },
-        // COUNT, TOTAL f0 without grouping on a nullable float field: batch 1 is all null (typed ⇒
-        // columnar path), batch 2 holds a float (row path): one of the two groups replaces the
-        // other, COUNT is 2 or 1 instead of 3
+        // REGRESSION of C09-columnar-split (fixed by 829ebe3): COUNT, TOTAL f0 without grouping on a
+        // nullable float field: batch 1 is all null (typed ⇒ columnar path), batch 2 holds a float
+        // (row path); the two sink groups must be merged: count 3, total 2
         Witness {
-            class: "columnar-key-split",
+            class: "",
             plan: plan(vec![CountAll, Total(0)], None, None, 9, 1),
             flows: vec![vec![vec![vec![Null], vec![Null]], vec![vec![Float(2.0)]]]],
+        },
+        // same, three batches alternating the path, and AVG
+        Witness {
+            class: "",
+            plan: plan(vec![CountAll, Avg(0)], None, None, 9, 1),
+            flows: vec![vec![vec![vec![Null]], vec![vec![Float(6.0)]], vec![vec![Null], vec![Null]]]],
         },
     ]
 }
